@@ -148,7 +148,12 @@ def work(job):
                                macros=gen.DEFAULT_MACROS + ([("log", "debug")] if kind.startswith("corpus") else []) + ([gen.DEFAULT_MACROS[0]] if red else []))
         res["counters"]["redundant_configuration"] = int(red)
         amb = ambient.choose(rnd, files, p=0.3, kinds=["ro_sources", "ro_sources", "mtimes", "siblings", "mix"])
-        out = lab.run_tree(built, box, files, cfg, trace=False, timeout=300, ambient=amb)
+        # variables a developer shell or CI job commonly exports; none of them is part of the tool's interface
+        envx = rnd.choice([None, None, None, {"RUST_LOG": rnd.choice(["warn", "error", "off", "debug", "trace", "breadlog=error", "nonsense"])},
+                           {"NO_COLOR": "1", "TERM": "dumb"}, {"RUST_BACKTRACE": "full", "LANG": "C", "LC_ALL": "C"},
+                           {"CLICOLOR_FORCE": "1", "TERM": "xterm-256color", "COLUMNS": "20"}, {"TZ": "Pacific/Kiritimati", "RUST_LOG_STYLE": "always"}])
+        res["counters"]["runs_with_extra_environment"] = int(bool(envx))
+        out = lab.run_tree(built, box, files, cfg, trace=False, timeout=300, ambient=amb, env_extra=envx)
     res["counters"]["ambient_" + amb["kind"]] = 1
     if out.check.panicked() or out.edit.panicked() or out.check.timed_out or out.edit.timed_out:
         res["inconclusive"]["run-crashed-or-timeout (C17's business)"] = 1
